@@ -151,16 +151,51 @@ def _make_falsy_opt(name, marker, fs):
     return _bind(type(name, bases, ns))
 
 
-def _make_opt(name, marker, ss, ds):
+SLOT_NAMES = ('val', 'w', 'via', 'sset') + tuple('%s%d' % (c, i) for c in 'kx' for i in range(1, 7))
+
+
+def attrs_of(o):
+    """The attributes of a generated instance: its __dict__ (if it has one) and its filled slots."""
+    d = dict(getattr(o, '__dict__', {}))
+    for k in getattr(type(o), '_slotnames', ()):
+        if hasattr(o, k):
+            d[k] = getattr(o, k)
+    return d
+
+
+def _wrapped(f):
+    """a decorator written with functools.wraps: inspect.signature still shows the parameters of f"""
+    import functools
+
+    @functools.wraps(f)
+    def wrapper(*args, **kwargs):
+        return f(*args, **kwargs)
+    return wrapper
+
+
+def _make_opt(name, marker, ss, ds, gvar='plain', slots=False):
+    """gvar: how the remote-aware __getstate__ is spelled: "plain" (self, remote=False) | "kwonly" (self, *, remote=False)
+    | "wrapped" (behind a functools.wraps decorator).  slots: the class declares __slots__ and keeps its attributes there."""
     rp = _rp()
 
-    def __getstate__(self, remote=False):
-        _event(('gs', self.__dict__.get('val'), 'T' if remote is True else ('F' if remote is False else repr(remote))))
-        d = dict(self.__dict__)
+    def state_of(self, remote):
+        _event(('gs', getattr(self, 'val', None), 'T' if remote is True else ('F' if remote is False else repr(remote))))
+        d = attrs_of(self)
         d['via'] = 'R' if remote else 'L'
         return d if ds else list(d.items())
+    if gvar == 'kwonly':
+        def __getstate__(self, *, remote=False):
+            return state_of(self, remote)
+    else:
+        def __getstate__(self, remote=False):
+            return state_of(self, remote)
+        if gvar == 'wrapped':
+            __getstate__ = _wrapped(__getstate__)
 
     ns = {'__getstate__': __getstate__, '_kind': 'opt', '__new__': _new_logged}
+    if slots:
+        ns['__slots__'] = SLOT_NAMES
+        ns['_slotnames'] = SLOT_NAMES
     if ss:
         def __setstate__(self, st):
             d = dict(st)
@@ -168,19 +203,51 @@ def _make_opt(name, marker, ss, ds):
             if getattr(_CTL, 'raise_at', None) == d.get('val'):
                 raise Injected('injected failure in __setstate__ of %r' % (d.get('val'),))
             d['sset'] = 'T'
-            self.__dict__.update(d)
+            for k, v in d.items():
+                setattr(self, k, v)
         ns['__setstate__'] = __setstate__
     bases = (rp.SupportRemoteGetState,) if marker else (object,)
     return _bind(type(name, bases, ns))
 
 
-def opt_class(marker, ss, ds, seen, fs='no', sub=False):
+_FRESHN = [0]
+
+
+def fresh_opt_class(marker, ss, ds):
+    """A brand-new opt-in class (never seen by the library before)."""
+    _FRESHN[0] += 1
+    return _make_opt('OptFresh%d_%s%s%s' % (_FRESHN[0], 'M' if marker else 'D', 'S' if ss else 's', 'D' if ds else 'd'), marker, ss, ds)
+
+
+class _Record:
+    pass
+
+
+def churn(n=120):
+    """History: a program that creates short-lived plain classes, remote-dumps an instance of each and drops them."""
+    import gc
+    rp = _rp()
+    for i in range(n):
+        c = type('Record%d' % i, (), {'__module__': __name__})
+        c.__qualname__ = c.__name__
+        setattr(_ME, c.__name__, c)
+        x = c()
+        x.a = i
+        rp.dumps([x])
+        delattr(_ME, c.__name__)
+        del x, c
+    gc.collect()
+
+
+def opt_class(marker, ss, ds, seen, fs='no', sub=False, gvar='plain', slots=False):
     """`sub`: a subclass that INHERITS its remote-aware __getstate__ (class Duckling(Duck): pass)."""
+    if fs != 'no':
+        gvar, slots = 'plain', False
     if sub:
-        key = (marker, ss, ds, bool(seen or marker), fs, 'sub')
+        key = (marker, ss, ds, bool(seen or marker), fs, 'sub', gvar, slots)
         c = _OPT_CACHE.get(key)
         if c is None:
-            base = opt_class(marker, ss, ds, seen, fs)
+            base = opt_class(marker, ss, ds, seen, fs, gvar=gvar, slots=slots)
             c = _bind(type(base.__name__ + '_sub', (base,), {}))
             if key[3] and not marker:
                 x = object.__new__(c)
@@ -191,18 +258,19 @@ def opt_class(marker, ss, ds, seen, fs='no', sub=False):
                     pass
             _OPT_CACHE[key] = c
         return c
-    return _opt_class(marker, ss, ds, seen, fs)
+    return _opt_class(marker, ss, ds, seen, fs, gvar, slots)
 
 
-def _opt_class(marker, ss, ds, seen, fs='no'):
+def _opt_class(marker, ss, ds, seen, fs='no', gvar='plain', slots=False):
     """One class per feature combination.  `seen` classes have been dumped remotely before (so they sit
     in supported_classes); an un-`seen` duck-typed class is never dumped remotely through this handle."""
-    key = (marker, ss, ds, bool(seen or marker), fs)
+    key = (marker, ss, ds, bool(seen or marker), fs, gvar, slots)
     c = _OPT_CACHE.get(key)
     if c is None:
         name = 'Opt_%s%s%s_%s%s' % ('M' if marker else 'D', 'S' if ss else 's', 'D' if ds else 'd', 'seen' if key[3] else 'fresh',
                                     '' if fs == 'no' else '_' + fs)
-        c = _make_opt(name, marker, ss, ds) if fs == 'no' else _make_falsy_opt(name, marker, fs)
+        name += ('' if gvar == 'plain' else '_' + gvar) + ('_slots' if slots else '')
+        c = _make_opt(name, marker, ss, ds, gvar, slots) if fs == 'no' else _make_falsy_opt(name, marker, fs)
         if key[3] and not marker:
             x = object.__new__(c)
             x.val, x.w = 'v0', 'w0'
@@ -281,9 +349,20 @@ def build_graph(scn):
     seen = scn['seen'] or remote_now            # a remote dump classifies the class anyway
     ctype = scn.get('ctype', 'list')
     objs, kinds = [None] * (n + 1), [None] * (n + 1)
+    all_ss = all(nd['ss'] for nd in g if nd['kind'] == 'opt')
+    fresh = {}
+    if scn.get('churn'):
+        churn()                                    # short-lived plain classes were remote-pickled and dropped before
     for i, nd in enumerate(g, 1):
         if nd['kind'] == 'opt':
-            cls = opt_class(scn['marker'], nd['ss'], nd['ds'], seen, nd.get('fs', 'no'), sub=scn.get('ovar') == 'sub')
+            if scn.get('churn') and nd.get('fs', 'no') == 'no':
+                ck = (nd['ss'], nd['ds'])
+                if ck not in fresh:
+                    fresh[ck] = fresh_opt_class(scn['marker'], nd['ss'], nd['ds'])
+                cls = fresh[ck]
+            else:
+                cls = opt_class(scn['marker'], nd['ss'], nd['ds'], seen, nd.get('fs', 'no'), sub=scn.get('ovar') == 'sub',
+                                gvar=scn.get('gvar', 'plain'), slots=scn.get('ovar') == 'slots' and all_ss)
             o = object.__new__(cls)
             o.val, o.w = 'v%d' % i, 'w%d' % i
             objs[i], kinds[i] = o, cls
@@ -342,7 +421,7 @@ def build_graph(scn):
             elif kinds[i] is dict:
                 o[e['k']] = c
             else:
-                o.__dict__[e['k']] = c
+                setattr(o, e['k'], c)
     return objs[1], kinds
 
 
@@ -376,7 +455,7 @@ def project(top, scn, kinds, patch_paths=()):
     def tag_of(o):
         t = None
         if hasattr(type(o), '_kind'):
-            t = o.__dict__.get('val')
+            t = getattr(o, 'val', None)
         elif isinstance(o, (list, tuple)) and o and isinstance(o[0], str):
             t = o[0]
         elif isinstance(o, dict) and isinstance(o.get('val'), str):
@@ -414,7 +493,7 @@ def project(top, scn, kinds, patch_paths=()):
             ent['#'] = type(o)._kind if type(o) is kinds[i] else 'wrongclass:' + type(o).__name__
             if type(o) is PlainSlots and getattr(o, 'sl', None) != 'slot%d' % i:
                 ent['#'] = 'slotlost'
-            for k, v in o.__dict__.items():
+            for k, v in attrs_of(o).items():
                 ent[k] = tok(v)
         elif isinstance(o, (list, tuple)):
             ent['#'] = 'cont' if type(o) is kinds[i] else 'cont?:' + type(o).__name__
@@ -1239,6 +1318,7 @@ def run_leaf(scn):
 def normalise(scn):
     """Fill in fields added to the scenario records later (replay files written by earlier versions)."""
     if scn['t'] == 'graph':
+        scn.setdefault('churn', False)
         for nd in scn['g']:
             nd.setdefault('fs', 'no')
     elif scn['t'] == 'leaf':
